@@ -245,6 +245,9 @@ def rule_terms(ctx):
         reach = collect.reachable_types(fx, leaves)
         for adt in ("Formula", "AtomicFormula", "GeneralTerm", "IntegerTerm", "Guard"):
             collect.check_method(ctx, "COLLECT", fx, S + adt, meth, reach)
+    collect.check_variable_leaves(ctx, "COLLECT", fx)
+    # a renamed binder is replaced by GeneralTerm::from(new variable): it must be an occurrence of the same sort
+    collect.check_variable_conversions(ctx, "COLLECT", fx, which=("from",))
     reach = collect.reachable_types(fx, {S + "GeneralTerm", S + "IntegerTerm", S + "SymbolicTerm"})
     collect.check_method(ctx, "COLLECT", fx, S + "Formula", "free_variables", reach, delegates=("variables",))
     fv = ev("sigma_0::Formula::free_variables")
